@@ -26,7 +26,9 @@
                                  grid points `0 … len−1` once each, in order (`visits_sv`, `visits_mps`);
     * `reps_total`, `reps_each` – the generator loop yields `Σ reps` items, `reps_i` copies of item `i`
                                   consecutively, in order;
-    * `config_times`, `full_rejected` – which times `_unique_observable_times` collects.
+    * `config_times`, `full_rejected` – which times `_unique_observable_times` collects;
+    * `trajectories_requested`, `simulated_eq_requested` – Pulser is asked for `n_trajectories` of the resolved
+      noise model; given Pulser's contract Σ reps = n, exactly n runs are simulated.
   The merge tolerance is needed in the statement: two candidates closer than `relTol·D` are
   merged (that is the repair of defect D7), so "contains" can only hold up to it
   (`merge_needed_example`).
@@ -342,6 +344,18 @@ theorem reps_total {σ τ : Type} (mk : σ → τ) : ∀ (samples : List (σ × 
   | (s, r) :: rest => by
     rw [reps_each, List.length_append, List.length_replicate, reps_total mk rest]
     simp
+
+/-- Pulser is asked for `config.n_trajectories` trajectories of the *resolved* noise model, whether
+it comes from the device or from the config. -/
+theorem trajectories_requested {ν : Type} (prefer : Bool) (dev cfg : ν) (n : ℕ) :
+    (trajectoryRequest prefer dev cfg n).2 = n ∧
+    (trajectoryRequest prefer dev cfg n).1 = (if prefer then dev else cfg) := ⟨rfl, rfl⟩
+
+/-- … so if Pulser's trajectories carry `Σ reps = n` (its contract for stochastic noise), exactly `n`
+`SequenceData` are simulated. -/
+theorem simulated_eq_requested {σ τ : Type} (mk : σ → τ) (samples : List (σ × ℕ)) (n : ℕ)
+    (hp : (samples.map Prod.snd).sum = n) : (expandReps mk samples).length = n := by
+  rw [reps_total, hp]
 
 /-! ### Non-vacuity and the role of the merge tolerance -/
 
